@@ -460,6 +460,48 @@ func runC20(c *Ctx) {
 			if !reflect.DeepEqual(y, want) {
 				fail("set-frame", "SetValidations(v) on a carrier differs from a carrier built with v")
 			}
+			// 3b. the fluent writers (WithValidations) are writers too: same effect as SetValidations, whatever else
+			// the carrier holds (a body parameter keeps its payload schema untouched)
+			{
+				y2 := mkCarrier(kind, init, markers)
+				fluent := true
+				switch t := y2.(type) {
+				case *spec.Schema:
+					t.WithValidations(other)
+				case *spec.Parameter:
+					t.WithValidations(other.CommonValidations)
+				case *spec.Header:
+					t.WithValidations(other.CommonValidations)
+				case *spec.Items:
+					t.WithValidations(other.CommonValidations)
+				default:
+					fluent = false
+				}
+				if fluent && !reflect.DeepEqual(y2, want) {
+					fail("fluent-set", "WithValidations(v) on a carrier differs from a carrier built with v")
+				}
+				if kind == "parameter" {
+					payload := &spec.Schema{}
+					payload.Title = "payload"
+					payload.SetValidations(init)
+					keep := deepCopyCarrier(payload)
+					bp := mkCarrier(kind, init, markers).(*spec.Parameter)
+					bp.In, bp.Schema = "body", payload
+					bp.WithValidations(other.CommonValidations)
+					if !reflect.DeepEqual(bp.Validations(), restrict(kind, other)) {
+						fail("fluent-set", fmt.Sprintf("body parameter with a schema: after WithValidations(%v) read %v", svPlain(other), svPlain(bp.Validations())))
+					}
+					if !reflect.DeepEqual(carrier(payload), keep) {
+						fail("fluent-set", "WithValidations on a body parameter changed its payload schema")
+					}
+					bp2 := mkCarrier(kind, init, markers).(*spec.Parameter)
+					bp2.In, bp2.Schema = "body", payload
+					bp2.SetValidations(other)
+					if !reflect.DeepEqual(bp2.Validations(), restrict(kind, other)) || !reflect.DeepEqual(carrier(payload), keep) {
+						fail("set-frame", "SetValidations on a body parameter with a schema is not confined to the parameter's own validations")
+					}
+				}
+			}
 			// 4. clears, in one of the 24 orders, two callbacks
 			z := mkCarrier(kind, init, markers)
 			cur := restrict(kind, init)
